@@ -78,7 +78,7 @@ def render_atom(n):
     return "'" + n.replace("'", "\\'") + "'"
 
 def render_term(t, varname=None):
-    vn = varname or (lambda i: "V%d" % i)
+    vn = varname or (lambda i: "_" if i >= 900 else "V%d" % i)
     k = t["t"]
     if k == "a":
         return render_atom(t["n"])
